@@ -124,9 +124,12 @@ func init() {
 		p.ValueBad = 0.02
 	}, oracleNoPanic, oracleExec)
 	parseProp("C07", caseRule+"emphasis: unknown / near-miss / out-of-scope options under the three policies", 2500, 100000, func(p *Profile) {
-		p.Unknown = 0.3
+		p.Unknown = 0.25
 		p.Weird = 0.05
 		p.BadDecl = 0.01
+		p.MaxCmdDepth = 3
+		p.CmdWord = 0.3
+		p.SubOpt = 0.5
 	}, oracleNoPanic, oracleHandler)
 	parseProp("C08", caseRule+"emphasis: deep command trees, aliases, name clashes between levels", 2500, 100000, func(p *Profile) {
 		p.MaxCmdDepth = 3
